@@ -133,7 +133,7 @@ def _phis(t, head, acc):
     if isinstance(t, tuple) and t:
         if t[0] == "phi" and len(t) == 3 and t[1] == head:
             acc.add(t)
-        for x in t[1:]:
+        for x in (t if isinstance(t[0], tuple) else t[1:]):
             if isinstance(x, tuple):
                 _phis(x, head, acc)
     return acc
